@@ -103,6 +103,9 @@ def from_le(bs):
 
 def rev8(b):
     """bit reversal of a byte"""
+    if _is_sym(b):
+        from . import sym
+        return sym.rev8(b)
     r = 0
     for i in range(8): r = r | (((b >> i) & 1) << (7 - i))
     return r
